@@ -133,6 +133,9 @@ class Interp:
         }
         self.type_names.update(type_names or {})
         self.fuel = fuel
+        # module-level constants that hold a tuple of class names (`_TERMINAL = (ast.Break, ast.Return)`):
+        # isinstance(x, _TERMINAL) is decided against the tuple's elements
+        self.spec_aliases: dict = {}
 
     # -- rich comparison protocol ----------------------------------------------------------
     def _call_dunder(self, obj: Obj, name: str, other):
@@ -581,6 +584,8 @@ class Interp:
         if isinstance(spec, ast.Tuple):
             return any(self._isinstance(v, s, env) for s in spec.elts)
         name = P.dotted(spec)
+        if isinstance(spec, ast.Name) and name in self.spec_aliases:
+            return self._isinstance(v, self.spec_aliases[name], env)
         # a local or a module-level constant holding the class(es): `kinds = (bool, type(None))`
         if isinstance(spec, ast.Name) and name not in self.type_names and not isinstance(v, Obj):
             try:
